@@ -2,6 +2,9 @@ import JenVerif.Tie.Closed
 import JenVerif.Props.C10
 import JenVerif.Props.C13
 import JenVerif.Props.C08
+import JenVerif.Props.C07
+import JenVerif.Props.C17
+import JenVerif.Props.C15
 /-
   Property statements transferred to the TRANSLATED code.
 
@@ -16,6 +19,12 @@ import JenVerif.Props.C08
   * C02: a successful translated `File.Render` wrote exactly gofmt(raw) resp. raw;
   * C13: inserting a void item anywhere in a Group leaves the translated `Group.RenderWithFile`'s
     result, effect trace and File state unchanged (for every formatter and writer);
+  * C07: the translated `tag.render`, `File.renderImports`, `File.ImportNames` — which range over Go
+    maps, their iteration order being a parameter of the translation — give the same result for any
+    two orders;
+  * C17: the literal written by the translated `tag.render`, read back and looked up with reflect's
+    algorithm, yields every value; C15: what the translated `comment.render` writes is one comment
+    that ends where it should, whatever follows;
   * C08: the translated `File.Render` run a second time on the state left by the first gives the same
     result and the same effect trace.
 -/
@@ -127,6 +136,68 @@ theorem C08_rerender_on_code (w : World) (f : FileS)
   · show r2.2.1 = r1.2.1
     rw [c2.2.1, e, ← c1.2.1]
 
+/-- C07 on the translated `tag.render`: the Go code ranges over the caller's map; `t₁`, `t₂` are the
+    map's entries in any two iteration orders — the bytes written are the same -/
+theorem C07_tag_on_code (cfg : Cfg) (f : FileS) (out : Str) {t₁ t₂ : List (Str × Str)} (h : t₁.Perm t₂)
+    (hk : (t₁.map (·.1)).Nodup) :
+    Gen.Src.tag_render cfg t₁ f out = Gen.Src.tag_render cfg t₂ f out := by
+  have hk2 : (t₂.map (·.1)).Nodup := (List.Perm.nodup_iff (List.Perm.map _ h)).mp hk
+  rw [tag_render_eq cfg t₁ f out hk, tag_render_eq cfg t₂ f out hk2, C07.tag_perm cfg.isPrint h hk]
+  have : t₁.isEmpty = t₂.isEmpty := by
+    cases t₁ <;> cases t₂ <;> simp_all
+  rw [this]
+
+/-- C07 on the translated `File.renderImports`: `f₁`, `f₂` differ only in the iteration order of the
+    import table (a Go map) — the import block written is the same -/
+theorem C07_imports_on_code (cfg : Cfg) (out : Str) {f₁ f₂ : FileS} (h : f₁.imports.Perm f₂.imports)
+    (hk : (f₁.imports.map (·.1)).Nodup) (hc : f₁.cgo = f₂.cgo) :
+    Gen.Src.renderImports cfg f₁ out = Gen.Src.renderImports cfg f₂ out := by
+  have hk2 : (f₂.imports.map (·.1)).Nodup := (List.Perm.nodup_iff (List.Perm.map _ h)).mp hk
+  rw [renderImports_src_eq_model cfg f₁ out hk, renderImports_src_eq_model cfg f₂ out hk2,
+    C07.importBlock_perm cfg.isPrint h hk hc]
+
+/-- C07 on the translated `File.ImportNames`: any iteration order of the argument map leaves the same
+    hint for every path -/
+theorem C07_importNames_on_code (cfg : Cfg) (f : FileS) {m₁ m₂ : List (Str × Str)} (h : m₁.Perm m₂)
+    (nd : (m₁.map (·.1)).Nodup) (p : Str) :
+    AList.lookup (Gen.Src.ImportNames cfg f m₁).hints p = AList.lookup (Gen.Src.ImportNames cfg f m₂).hints p := by
+  rw [ImportNames_eq, ImportNames_eq]
+  exact C07.importNames_perm f h nd p
+
+/-- C17 on the translated `tag.render`: what it writes for a non-empty map with distinct conventional
+    keys is ONE Go string literal which, read back and looked up with reflect's algorithm, yields
+    every value exactly — for arbitrary byte-string values and whatever source text follows -/
+theorem C17_lookup_on_code (cfg : Cfg) (h : Quote.PSafe cfg.isPrint) (f : FileS) (m : List (Str × Str))
+    (nd : (m.map (·.1)).Nodup) (hk : ∀ kv ∈ m, StructTag.convKey kv.1 = true) (kv : Str × Str) (hm : kv ∈ m) (rest : Str) :
+    (TagRT.readGoLiteral (Gen.Src.tag_render cfg m f [] ++ rest)).bind (fun r => StructTag.lookup r.1 kv.1) = some kv.2 := by
+  rw [tag_render_eq cfg m f [] nd]
+  have hne : m.isEmpty = false := by cases m <;> simp_all
+  simp only [hne, List.nil_append]
+  exact C17.lookup_roundtrip h m nd hk kv hm rest
+
+/-- C15 on the translated `comment.render`: a one-line text in the property's domain is written as a
+    line comment that ends at the line break — whatever code follows stays code -/
+theorem C15_line_comment_on_code (cfg : Cfg) (f : FileS) (t : Str) (hd : CommentLemmas.InDomain t)
+    (h : t.elem 10 = false) (rest : Str) :
+    GoComment.skipComment (Gen.Src.comment_render cfg t f [] ++ [10] ++ rest) = some (b!"// " ++ t, [10] ++ rest) := by
+  rw [comment_render_eq]
+  simp only [List.nil_append]
+  exact C15.line_comment_contained t hd h rest
+
+/-- … and a text with line breaks as a block comment that ends exactly at the `*/` it appends -/
+theorem C15_block_comment_on_code (cfg : Cfg) (f : FileS) (t : Str) (hd : CommentLemmas.InDomain t)
+    (h : t.elem 10 = true) (rest : Str) :
+    GoComment.skipComment (Gen.Src.comment_render cfg t f [] ++ rest) = some (Gen.Src.comment_render cfg t f [], rest) := by
+  rw [comment_render_eq]
+  simp only [List.nil_append]
+  exact (C15.block_comment_contained t hd h rest).1
+
+#print axioms C17_lookup_on_code
+#print axioms C15_line_comment_on_code
+#print axioms C15_block_comment_on_code
+#print axioms C07_tag_on_code
+#print axioms C07_imports_on_code
+#print axioms C07_importNames_on_code
 #print axioms C10_render_on_code
 #print axioms C10_save_on_code
 #print axioms C13_insert_void_on_code
